@@ -36,6 +36,13 @@ Arguments mkfit {T}. Arguments f_family {T}. Arguments f_pos {T}. Arguments f_kw
 
 Definition is_none {A} (o : option A) : bool := match o with None => true | Some _ => false end.
 
+(* elementwise (numpy) operations on equally long vectors, for translated array code *)
+Definition vmap2 {T} (f : T -> T -> T) (a b : list T) : list T := map (fun p => f (fst p) (snd p)) (combine a b).
+Definition vsum {T} (N : NumOps T) (l : list T) : T := fold_right (n_add N) (n_Z N 0) l.
+(* v[np.nonzero(x)]: the entries of v at the positions where x is not zero *)
+Definition vnonzero {T} (N : NumOps T) (x v : list T) : list T :=
+  map snd (filter (fun p => negb (n_leb N (fst p) (n_Z N 0) && n_leb N (n_Z N 0) (fst p))) (combine x v)).
+
 (* ---------------------------------------------------------------- exact reals *)
 Local Open Scope R_scope.
 Definition ROps : NumOps R := {|
